@@ -1300,7 +1300,7 @@ def work(chunk_id, payload):
 def main():
     chk = R.Check(PROP)
     binary = chk.build("asan")
-    total = 304 if chk.tier == "quick" else 10048
+    total = 800 if chk.tier == "quick" else 10048
     total = int(total * chk.args.scale)
     nchunks = 16 if chk.tier == "quick" else 64
     per = max(1, total // nchunks)
